@@ -25,6 +25,7 @@ ASSUMPTIONS = [
     "reference cdfs are the documented formulas (vp/oracles/formulas.py); the von Mises cdf reference is a 4000-point cumulative Gauss-Legendre table of the documented pdf, compared modulo 2 pi",
     "statistical comparisons use distribution-free DKW/Hoeffding bounds with error probability 1e-12 per comparison; draws are seeded so a run is deterministic",
     "sample sizes up to 2e5 (quick) / 1e6 (thorough)",
+    "'bit-for-bit' reproduction is judged at rtol 1e-14: numpy's vectorised exp/log/pow kernels round the last bit differently depending on buffer alignment, so two identical calls can differ by 1 ulp in a few entries (observed on this platform); a different random stream differs in every digit",
 ]
 
 _GLX, _GLW = np.polynomial.legendre.leggauss(8)
@@ -71,27 +72,37 @@ def rs_of(kind, seed):
     return np.random.default_rng(int(seed))
 
 
+def same_draws(a, b):
+    """identical up to the last-bit differences numpy's SIMD kernels (exp/log/pow) show between two identical
+    calls depending on buffer alignment; a different random stream differs in every digit"""
+    a, b = np.asarray(a, dtype=float), np.asarray(b, dtype=float)
+    return a.shape == b.shape and bool(np.allclose(a, b, rtol=1e-14, atol=0, equal_nan=True))
+
+
 def seeding_checks(ctx, tag, draw, seed, other_seed, n):
     """draw(random_state) -> sample"""
     a = draw(int(seed))
     b = draw(int(seed))
-    if not np.array_equal(a, b):
-        ctx.violation(f"seed:int_not_reproducible:{tag}", f"seed={seed} n={n}")
+    if not same_draws(a, b):
+        a_, b_ = np.asarray(a, dtype=float), np.asarray(b, dtype=float)
+        diff = a_ != b_
+        cols = np.nonzero(diff.any(axis=0))[0].tolist() if a_.ndim == 2 else []
+        ctx.violation(f"seed:int_not_reproducible:{tag}", f"seed={seed} n={n}: {int(diff.sum())} entries differ (columns {cols}), NaNs {int(np.isnan(a_).sum())}/{int(np.isnan(b_).sum())}; first differing {a_[diff][:3].tolist()} vs {b_[diff][:3].tolist()}")
     g1, g2 = np.random.default_rng(int(seed)), np.random.default_rng(int(seed))
     c, d = draw(g1), draw(g2)
-    if not np.array_equal(c, d):
+    if not same_draws(c, d):
         ctx.violation(f"seed:generator_not_reproducible:{tag}", f"seed={seed} n={n}")
     if n >= 2:
         e = draw(g1)  # re-used generator: state must have advanced
-        if np.array_equal(c, e):
+        if same_draws(c, e):
             ctx.violation(f"seed:generator_state_not_threaded:{tag}", f"seed={seed} n={n}")
         f_ = draw(int(other_seed))
-        if other_seed != seed and np.array_equal(a, f_):
+        if other_seed != seed and same_draws(a, f_):
             ctx.violation(f"seed:different_seeds_same_sample:{tag}", f"seeds={seed},{other_seed} n={n}")
         np.random.seed(int(seed) % (2**32))
         h1 = draw(None)
         h2 = draw(None)
-        if np.array_equal(h1, h2):
+        if same_draws(h1, h2):
             ctx.violation(f"seed:none_repeats:{tag}", f"n={n}")
     return a
 
